@@ -273,7 +273,7 @@ for name, f in F.items():
           ('* **Finding id:** `%s` - **already fixed in /repo HEAD** by commit %s while this campaign was running (found independently here; no patch needed, the reproducer now passes on /repo and is kept as a regression input)' % (name, UPSTREAM.get(name, '?'))),
           '* **Where:** %s  (line numbers as of the /repo snapshot this campaign started from, commit 04ff8ed; later fix commits in /repo shift some of them by a few lines)' % f['where'],
           '* **Failure signature:** on the fully patched tree minus this fix: `%s`; on unpatched /repo the same input gives `%s` (an earlier defect may fire first there)' % (v.get('sig_minus', '?'), v.get('sig_repo', '?')),
-          '* **Reproducer:** `corpus/C09/%s/regress/%s` (%s bytes) - `bin/check C09 --replay corpus/C09/%s/regress/%s`' % (v.get('target', '?'), name, v.get('size', '?'), v.get('target', '?'), name), '',
+          '* **Reproducer:** `corpus/C09/%s/regress/%s-%s-.bin` (%s bytes; replayed on every run) - `bin/check C09 --replay corpus/C09/%s/regress/%s-%s-.bin` (the `-<target>-` part of the file name is what `--replay` uses to pick the target)' % (v.get('target', '?'), name, v.get('target', '?'), v.get('size', '?'), v.get('target', '?'), name, v.get('target', '?')), '',
           '## What fails', f['what'], '',
           '## Minimal input', f['input'], '',
           '## Root cause', f['cause'], '',
